@@ -86,13 +86,17 @@ func (e *Engine) verifyFunc(key string) (vc *VC, err error) {
 	for ri, r := range fr.rets {
 		fr.reach = r.reach
 		fr.st = r.st
-		fr.curInstr = nil
+		fr.curInstr = r.instr
 		rn := map[string]*Val{}
 		for k, v := range names {
 			rn[k] = v
 		}
 		bindResults(rn, r.val, fn.Signature.Results())
 		for i, en := range c.Ensures {
+			if strings.HasPrefix(en.Label, "assume_") {
+				vc.assumed["assumed postcondition of "+key+": "+en.Src] = true
+				continue
+			}
 			t, err := fr.evalClause(en, &evalCtx{fr: fr, st: fr.st, old: fr.entry, names: rn})
 			if err != nil {
 				if ri == 0 {
